@@ -242,7 +242,7 @@ theorem soundE (env : Env) (henv : EnvPlain env) (e : Expr) (hc : coreE e = true
       by_cases hlen : (args.length != sig.params.length) = true
       · simp only [hlen, if_true] at h1; exact (throw_ok.mp h1).elim
       · simp only [hlen, Bool.false_eq_true, if_false] at h1
-        obtain ⟨hpl, hpr⟩ := henv f sig hf
+        obtain ⟨hpl, hpr⟩ := henv.1 f sig hf
         obtain ⟨hW1, hp1⟩ := soundArgs env henv args hc sig.params hpl cx g st d1 st1 hW hcx hg h1
         have hWr : WT (toM sig.ret) = true := (den_toM (fun _ => .unit) sig.ret hpr).2.1
         obtain ⟨hW2, hE2, heq2⟩ := unifyM_ok h3 hW1 hcx.1 hWr
@@ -340,9 +340,59 @@ theorem soundE (env : Env) (henv : EnvPlain env) (e : Expr) (hc : coreE e = true
       (fun τ st d st' hW' hτ h' => soundE env henv l hcl (cx.withTy τ) g st d st' hW' (WTcx_with hcx hτ) hg h')
       (fun τ st d st' hW' hτ h' => soundE env henv r hcr (cx.withTy τ) g st d st' hW' (WTcx_with hcx hτ) hg h')
       hW hcx h
-  | const _ | field _ _ | «for» _ _ _ | mcall _ _ _ | assign _ _ _ _ | cassign _ _ _ _ _ | record _ _
-  | listLit _ | ctor _ _ _ | some _ | none | «try» _ | «match» _ _ | fstr _ => simp [coreE] at hc
+  | const c => exact const_sound henv hW hcx h
+  | none => exact none_sound hW hcx h
+  | some e =>
+    simp only [coreE] at hc
+    exact some_sound (fun cx g st d st' a b c h' => soundE env henv e hc cx g st d st' a b c h') hW hcx hg h
+  | «try» e =>
+    simp only [coreE] at hc
+    exact try_sound (fun cx g st d st' a b c h' => soundE env henv e hc cx g st d st' a b c h') hW hcx hg h
+  | «for» x e b =>
+    simp only [coreE, Bool.and_eq_true] at hc
+    exact for_sound (fun cx g st d st' a b' c h' => soundE env henv e hc.1 cx g st d st' a b' c h')
+      (fun cx g st d st' a b' c h' => soundB env henv b hc.2 cx g st d st' a b' c h') hW hcx hg h
+  | listLit es =>
+    simp only [coreE] at hc
+    exact listLit_sound (fun cx g st d st' a b c h' => soundList env henv es hc cx g st d st' a b c h') hW hcx hg h
+  | field _ _ | mcall _ _ _ | assign _ _ _ _ | cassign _ _ _ _ _ | record _ _
+  | ctor _ _ _ | «match» _ _ | fstr _ => simp [coreE] at hc
 termination_by sizeOf e
+
+theorem soundList (env : Env) (henv : EnvPlain env) (es : List Expr) (hc : coreL es = true) :
+    ∀ cx g st d st', WTs st.store → WTcx cx → WTg g → inferList env cx g es st = .ok d st' →
+      PostList env cx g es st d st' := by
+  intro cx g st d st' hW hcx hg h
+  cases es with
+  | nil =>
+    simp only [inferList] at h
+    obtain ⟨rfl, rfl⟩ := pure_ok.mp h
+    exact ⟨hW, fun σ _ hs => ⟨hs, fun gd _ => ⟨[], false, by simp [synthList, pure, Except.pure], by simp, by simp⟩⟩⟩
+  | cons e es =>
+    simp only [coreL, Bool.and_eq_true] at hc
+    simp only [inferList] at h
+    obtain ⟨d1, st1, h1, h2⟩ := bind_ok.mp h
+    obtain ⟨d2, st2, h3, h4⟩ := bind_ok.mp h2
+    obtain ⟨rfl, rfl⟩ := pure_ok.mp h4
+    obtain ⟨hW1, hp1⟩ := soundE env henv e hc.1 cx g st d1 st1 hW hcx hg h1
+    obtain ⟨hW2, hp2⟩ := soundList env henv es hc.2 cx g st1 d2 st2 hW1 hcx hg h3
+    refine ⟨hW2, fun σ hσ hs => ?_⟩
+    obtain ⟨hs1, hsyn2⟩ := hp2 σ hσ hs
+    obtain ⟨hs0, hsyn1⟩ := hp1 σ hσ hs1
+    refine ⟨hs0, fun gd hgd => ?_⟩
+    obtain ⟨t, dd1, a1, a2, a3⟩ := hsyn1 gd hgd
+    obtain ⟨ts, dd2, b1, b2, b3⟩ := hsyn2 gd hgd
+    refine ⟨t :: ts, dd1 || dd2, by simp only [synthList, a1, b1, bind, Except.bind, pure, Except.pure], ?_, ?_⟩
+    · intro t' ht'
+      cases ht' with
+      | head => exact a2
+      | tail _ h' => exact b2 t' h'
+    · intro hd
+      simp only [Bool.or_eq_true] at hd ⊢
+      rcases hd with hd | hd
+      · exact Or.inl (a3 hd)
+      · exact Or.inr (b3 hd)
+termination_by sizeOf es
 
 theorem soundArgs (env : Env) (henv : EnvPlain env) (es : List Expr) (hc : coreL es = true) (ps : List Ty)
     (hps : ps.all plain = true) :
